@@ -53,6 +53,15 @@ func runC05(p *Prog, r *Report) {
 	}
 	fa := newFA(p, r, fn)
 	layers := fn.Params[2]
+	// "does this layer touch the package's files?" is asked about all of the package's locations
+	// (an extractor may have read a second file; a layer that rewrites only that one changes the package)
+	sameValueArg(p, r, "D3-skip", "trace.PopulateLayerDetails:touch-test-on-all-locations", fn, func(c *ssa.Call) bool {
+		cal := c.Call.StaticCallee()
+		return cal != nil && cal.Name() == "filesExistInLayer"
+	}, 1, func(v ssa.Value) bool { return loadsField(v, "Package", "Locations") }, "filesExistInLayer(layer, pkg.Locations)",
+		"the test whether a layer touches the package's files is not given all of the package's locations (only the file that is re-extracted): a layer that removes or re-adds the package by rewriting another of its files is skipped as untouched, and the package is attributed to an earlier layer")
+	r.Rule("D9-history-free", "attribution depends on the image being traced only: no process-wide mutable state")
+	noSharedMutableState(p, r, "D9-history-free", "a per-(location, layer index) extraction cache that outlives the scan answers for the second image of a process with the first image's packages", append([]*ssa.Function{fn}, fn.AnonFuncs...), tracePkg)
 	// ---- D1
 	var ldAlloc *ssa.Alloc
 	forEachInstr(fn, func(_ *ssa.BasicBlock, _ int, in ssa.Instruction) {
